@@ -6,6 +6,8 @@
 //!             `ok loads <sorted part loads>`      (coordinate ties, uniform weights)
 //!             `ok ties`                           (coordinate ties, other weights: oracle only)
 //!   `mjs <scale code> <D> <threads> <parts> <maxiter> <n> <w…> <coords>`   weights times a scale (see SCALES)
+//!   `mjx <ctrans> <D> <threads> <parts> <maxiter> <n> <w…> <coords> <nz> <idx…>`  -0.0 at the listed points, coordinate maps
+//!   `mjc <pool> <calls> <D|0> <parts> <maxiter> <n> <cshape> <wshape> <seed>`   calling contexts; out: `ok ctx <hash per call>`
 //!   `mjl <D> <threads> <parts> <maxiter> <n> <cshape> <wshape> <seed> <cmp>`  large inputs generated from a seed
 //!   `split <threads> <den> <k> <m…> <nw> <w…> <np> <perm…>`   hook compute_split_positions,
 //!        modifiers m_i/den;  out: `ok pos <positions>`
@@ -644,6 +646,30 @@ fn gen_weights_l(n: usize, wshape: usize, xs: &[i64], s: &mut u64) -> Vec<u64> {
     }
 }
 
+/// The input of an `mjl` / `mjc` case: per-axis integer coordinates, the same point-major,
+/// the f64 coordinates handed to the code, the integer weights.
+fn gen_mjl_input(dim: usize, n: usize, cshape: usize, wshape: usize, seed: u64) -> (Vec<Vec<i64>>, Vec<i64>, Vec<f64>, Vec<u64>) {
+    let mut s = lcg_next(seed);
+    let axes: Vec<Vec<i64>> = (0..dim).map(|c| gen_axis(n, cshape, c, &mut s)).collect();
+    let ws = gen_weights_l(n, wshape, &axes[0], &mut s);
+    let mut coords = vec![0i64; n * dim];
+    for c in 0..dim {
+        for i in 0..n {
+            coords[i * dim + c] = axes[c][i];
+        }
+    }
+    let fcoords: Vec<f64> = if cshape == 6 {
+        coords.iter().map(|&c| 600000.0 + c as f64 * 0.001).collect()
+    } else {
+        coords.iter().map(|&c| c as f64).collect()
+    };
+    (axes, coords, fcoords, ws)
+}
+
+fn hash_ids(canon_ids: &[usize]) -> u128 {
+    canon_ids.iter().fold(0u128, |h, &i| (h * 1_000_003 + i as u128 + 1) % ((1u128 << 61) - 1))
+}
+
 fn op_mjl(ctx: &mut Ctx, op: &str, it: &mut std::str::SplitWhitespace) -> Option<()> {
     let dim: usize = it.next()?.parse().ok()?;
     let threads: usize = it.next()?.parse().ok()?;
@@ -660,20 +686,7 @@ fn op_mjl(ctx: &mut Ctx, op: &str, it: &mut std::str::SplitWhitespace) -> Option
     if wshape == 4 && n > 40 {
         return None;
     }
-    let mut s = lcg_next(seed);
-    let axes: Vec<Vec<i64>> = (0..dim).map(|c| gen_axis(n, cshape, c, &mut s)).collect();
-    let ws = gen_weights_l(n, wshape, &axes[0], &mut s);
-    let mut coords = vec![0i64; n * dim];
-    for c in 0..dim {
-        for i in 0..n {
-            coords[i * dim + c] = axes[c][i];
-        }
-    }
-    let fcoords: Vec<f64> = if cshape == 6 {
-        coords.iter().map(|&c| 600000.0 + c as f64 * 0.001).collect()
-    } else {
-        coords.iter().map(|&c| c as f64).collect()
-    };
+    let (axes, coords, fcoords, ws) = gen_mjl_input(dim, n, cshape, wshape, seed);
     if cshape == 6 {
         // the mapping must preserve the order exactly (the model sees the integers)
         for c in 0..dim {
@@ -941,6 +954,8 @@ pub fn run_op(ctx: &mut Ctx, op: &str) {
         Some("mj") => op_mj(ctx, op, &mut it),
         Some("mjl") => op_mjl(ctx, op, &mut it),
         Some("mjs") => op_mjs(ctx, op, &mut it),
+        Some("mjx") => op_mjx(ctx, op, &mut it),
+        Some("mjc") => op_mjc(ctx, op, &mut it),
         Some("split") => op_split(ctx, op, &mut it),
         Some("scheme") => op_scheme(ctx, op, &mut it),
         Some("splitmany") => op_splitmany(ctx, op, &mut it),
@@ -1225,7 +1240,7 @@ fn gen_coords_distinct(ctx: &mut Ctx, n: usize, dim: usize) -> (Vec<i64>, &'stat
 // ------------------------------------------------------------------ weight-scale stream
 
 /// scale codes of the `mjs` op: 0..6 decimal (not exact), 7..9 exact powers of two
-const SCALES: [(f64, &str); 10] = [
+const SCALES: [(f64, &str); 15] = [
     (1e-30, "1e-30"),
     (1e-20, "1e-20"),
     (1e-17, "1e-17"),
@@ -1236,7 +1251,20 @@ const SCALES: [(f64, &str); 10] = [
     (8.673617379884035e-19, "2^-60"),
     (9.313225746154785e-10, "2^-30"),
     (1073741824.0, "2^30"),
+    // 10: totals just below overflow (the integer weights must sum to less than 2^24)
+    (f64::from_bits(2023 << 52), "2^1000"),
+    // 11: the smallest normal number as the unit
+    (f64::MIN_POSITIVE, "2^-1022"),
+    // 12..14: subnormal weights (the code's products round on the subnormal grid: oracle only)
+    (1e-310, "1e-310"),
+    (f64::from_bits(1), "5e-324"),
+    (f64::from_bits(1 << 34), "2^-1040"),
 ];
+
+/// codes whose scale is an exact power of two AND keeps every intermediate value normal
+fn scale_is_exact(code: usize) -> bool {
+    (7..=11).contains(&code)
+}
 
 fn run_scaled<const D: usize>(
     threads: usize,
@@ -1272,8 +1300,10 @@ fn op_mjs(ctx: &mut Ctx, op: &str, it: &mut std::str::SplitWhitespace) -> Option
         return None;
     }
     let (scale, name) = SCALES[code];
-    debug_assert!(code < 7 || (scale.to_bits() & ((1u64 << 52) - 1)) == 0);
-    let exact = code >= 7;
+    if code == 10 && ws.iter().map(|&w| w as u128).sum::<u128>() >= 1 << 24 {
+        return None; // the total would overflow: outside the contract
+    }
+    let exact = scale_is_exact(code);
     let fcoords: Vec<f64> = coords.iter().map(|&c| c as f64).collect();
     let distinct = (0..dim).all(|c| pairwise_distinct((0..n).map(|p| coords[p * dim + c]).collect()));
     let uniform = ws.windows(2).all(|w| w[0] == w[1]);
@@ -1295,6 +1325,17 @@ fn op_mjs(ctx: &mut Ctx, op: &str, it: &mut std::str::SplitWhitespace) -> Option
     let out = match run(scale) {
         Caught::Ok(ids) => {
             oracle_mj(ctx, dim, &coords, &ws, &ids, parts, maxiter, in_quant, &mut verdicts);
+            if code >= 12 {
+                // subnormal weights: a separate cause signature (the products total * modifier are
+                // rounded on the subnormal grid; with weights of a few ulps the thresholds lose
+                // their fractional part)
+                for v in verdicts.iter_mut() {
+                    if v.0 == "mj-imbalance" {
+                        v.0 = "mj-imbalance@subnormal-unit";
+                        v.1 = format!("weights in units of {}: {}", name, v.1);
+                    }
+                }
+            }
             // against the unscaled run
             match run(1.0) {
                 Caught::Ok(ids1) => {
@@ -1311,8 +1352,8 @@ fn op_mjs(ctx: &mut Ctx, op: &str, it: &mut std::str::SplitWhitespace) -> Option
                             format!("weights times {} (an exact power of two) give another partition than the unscaled weights", name),
                         )),
                         (true, Some(true)) => ctx.count("scale:pow2_identical_to_unscaled"),
-                        (false, Some(true)) => ctx.count("scale:decimal_same_as_unscaled"),
-                        (false, Some(false)) => ctx.count("scale:decimal_differs_from_unscaled"),
+                        (false, Some(true)) => ctx.count(if code < 12 { "scale:decimal_same_as_unscaled" } else { "special:subnormal_same_as_unscaled" }),
+                        (false, Some(false)) => ctx.count(if code < 12 { "scale:decimal_differs_from_unscaled" } else { "special:subnormal_differs_from_unscaled" }),
                         (_, None) => ctx.count("scale:ties_not_compared"),
                     }
                 }
@@ -1379,12 +1420,12 @@ fn scale_stream(ctx: &mut Ctx) {
         };
         let maxiter = 1 + ctx.rng.usize(4);
         let threads = *ctx.rng.pick(&THREADS);
-        let code = ctx.rng.usize(SCALES.len());
+        let code = ctx.rng.usize(10);
         let op = fmt_mj(dim, threads, parts, maxiter, &ws, &coords);
         run_op(ctx, &format!("mjs {} {}", code, &op[3..]));
     }
     // the N7 shape at every scale: many equal weights, few parts
-    for code in 0..SCALES.len() {
+    for code in 0..10 {
         for &(n, parts) in &[(100usize, 4usize), (64, 8), (30, 3)] {
             let coords: Vec<i64> = (0..n as i64).flat_map(|i| [i, (i * 7) % n as i64 + 1000 * (i % 7)]).collect();
             let op = fmt_mj(2, 1, parts, 2, &vec![1u64; n], &coords);
@@ -1399,7 +1440,458 @@ fn scale_stream(ctx: &mut Ctx) {
     );
 }
 
+
+// ------------------------------------------------------------------ special values / context
+
+/// `mjx <ctrans> <D> <threads> <parts> <maxiter> <n> <w…> <coords…> <nz> <idx…>`: the listed
+/// points carry `-0.0` wherever a weight or coordinate of theirs is zero; the coordinates go
+/// through an order-preserving map (0 identity, 1 times 1e36: finite but beyond the f32 range,
+/// 2 `600000 + c/1000`: distinct as f64, equal as f32). The result must equal the run with
+/// `+0.0` (signature `negzero-dependent@MultiJagged`), and the model's prediction.
+fn op_mjx(ctx: &mut Ctx, op: &str, it: &mut std::str::SplitWhitespace) -> Option<()> {
+    let ctrans: usize = it.next()?.parse().ok()?;
+    let dim: usize = it.next()?.parse().ok()?;
+    let threads: usize = it.next()?.parse().ok()?;
+    let parts: usize = it.next()?.parse().ok()?;
+    let maxiter: usize = it.next()?.parse().ok()?;
+    let n: usize = it.next()?.parse().ok()?;
+    if ctrans > 2 || !(dim == 2 || dim == 3) || threads == 0 || threads > 64 {
+        return None;
+    }
+    let ws: Vec<u64> = nums(it, n)?;
+    let coords: Vec<i64> = nums(it, n * dim)?;
+    let nz: usize = it.next()?.parse().ok()?;
+    let idx: Vec<usize> = nums(it, nz)?;
+    if it.next().is_some() || idx.iter().any(|&p| p >= n) || coords.iter().any(|&c| c.abs() > 1000) {
+        return None;
+    }
+    let map = |c: i64| match ctrans {
+        0 => c as f64,
+        1 => c as f64 * 1e36,
+        _ => 600000.0 + c as f64 * 0.001,
+    };
+    let plain_c: Vec<f64> = coords.iter().map(|&c| map(c)).collect();
+    let plain_w: Vec<f64> = ws.iter().map(|&w| w as f64).collect();
+    let mut neg_c = plain_c.clone();
+    let mut neg_w = plain_w.clone();
+    let (mut nzc, mut nzw) = (0usize, 0usize);
+    for &p in &idx {
+        for a in 0..dim {
+            if neg_c[p * dim + a] == 0.0 && neg_c[p * dim + a].is_sign_positive() {
+                neg_c[p * dim + a] = -0.0;
+                nzc += 1;
+            }
+        }
+        if neg_w[p] == 0.0 && neg_w[p].is_sign_positive() {
+            neg_w[p] = -0.0;
+            nzw += 1;
+        }
+    }
+    if nzc > 0 {
+        ctx.count(if nzc % 2 == 1 { "special:negzero_coord_odd" } else { "special:negzero_coord_even" });
+    }
+    if nzw > 0 {
+        ctx.count(if nzw % 2 == 1 { "special:negzero_weight_odd" } else { "special:negzero_weight_even" });
+    }
+    ctx.count(match ctrans {
+        0 => "special:coords_plain",
+        1 => "special:coords_beyond_f32_range",
+        _ => "special:coords_equal_as_f32",
+    });
+    let distinct = (0..dim).all(|c| pairwise_distinct((0..n).map(|p| coords[p * dim + c]).collect()));
+    let uniform = ws.windows(2).all(|w| w[0] == w[1]);
+    let positive = ws.iter().all(|&w| w > 0);
+    let in_quant = positive && n >= 1 && (1..=n).contains(&parts) && (1..=4).contains(&maxiter);
+    ctx.count(if in_quant { "mj_in_quantifier" } else { "mj_outside_quantifier" });
+    let run = |w: &[f64], c: &[f64]| {
+        if dim == 2 {
+            run_fresh::<2>(threads, parts, maxiter, w, &points_of::<2>(c))
+        } else {
+            run_fresh::<3>(threads, parts, maxiter, w, &points_of::<3>(c))
+        }
+    };
+    let mut verdicts: Vec<(&'static str, String)> = vec![];
+    let out = match run(&neg_w, &neg_c) {
+        Caught::Ok(ids) => {
+            oracle_mj(ctx, dim, &coords, &ws, &ids, parts, maxiter, in_quant, &mut verdicts);
+            if nzc + nzw > 0 {
+                match run(&plain_w, &plain_c) {
+                    Caught::Ok(ids0) => {
+                        let same = if distinct {
+                            Some(canon(&ids) == canon(&ids0))
+                        } else if uniform {
+                            Some(sorted_loads(&ids, &ws, parts) == sorted_loads(&ids0, &ws, parts))
+                        } else {
+                            None
+                        };
+                        match same {
+                            Some(true) => ctx.count("special:negzero_same_as_poszero"),
+                            Some(false) => verdicts.push((
+                                "negzero-dependent@MultiJagged",
+                                format!("{} coordinates / {} weights given as -0.0 change the partition", nzc, nzw),
+                            )),
+                            None => ctx.count("special:negzero_ties_not_compared"),
+                        }
+                    }
+                    Caught::Panic(m) => verdicts.push(("panic", format!("+0.0 run: {} [{}]", m, panic_sig(&m)))),
+                    Caught::Hang => verdicts.push(("hang", "+0.0 run".into())),
+                }
+            }
+            if distinct {
+                tagged("ok ids", &canon(&ids))
+            } else if uniform {
+                tagged("ok loads", &sorted_loads(&ids, &ws, parts))
+            } else {
+                "ok ties".to_string()
+            }
+        }
+        Caught::Panic(m) => {
+            verdicts.push(("panic", format!("{} [{}]", m, panic_sig(&m))));
+            format!("panic {}", m)
+        }
+        Caught::Hang => {
+            verdicts.push(("hang", "watchdog".into()));
+            "hang".into()
+        }
+    };
+    let idx = ctx.record(op.to_string(), out, in_quant && n >= 2 && parts >= 2);
+    for (sig, what) in verdicts {
+        ctx.fail(idx, sig, what);
+    }
+    Some(())
+}
+
+enum Pts {
+    P2(Vec<coupe::PointND<2>>),
+    P3(Vec<coupe::PointND<3>>),
+}
+
+struct CallInput {
+    dim: usize,
+    parts: usize,
+    maxiter: usize,
+    coords: Vec<i64>,
+    ws: Vec<u64>,
+    weights: Vec<f64>,
+    points: Pts,
+}
+
+fn run_call(inp: &CallInput) -> Vec<usize> {
+    let mut ids = vec![usize::MAX; inp.weights.len()];
+    let mut alg = coupe::MultiJagged { part_count: inp.parts, max_iter: inp.maxiter };
+    match &inp.points {
+        Pts::P2(p) => alg.partition(&mut ids, (&p[..], &inp.weights[..])).unwrap(),
+        Pts::P3(p) => alg.partition(&mut ids, (&p[..], &inp.weights[..])).unwrap(),
+    }
+    ids
+}
+
+/// `mjc <pool> <calls> <D|0> <parts> <maxiter> <n> <cshape> <wshape> <seed>`: `calls` independent
+/// inputs (call j: n + 13 j points, parts + j % 3 parts, seed + j, dimension D or 2 + j % 2 when
+/// D = 0) run (b) one after the other inside `pool.install` – the reference –, (a) on the global
+/// rayon pool, (c) from inside rayon tasks (`join`, `scope`/`spawn`), (d) all at once with
+/// `par_iter` on the pool. Every result must equal the reference
+/// (`context-dependent@MultiJagged`); out: `ok ctx <hash per call>`.
+fn op_mjc(ctx: &mut Ctx, op: &str, it: &mut std::str::SplitWhitespace) -> Option<()> {
+    use coupe::rayon::prelude::*;
+    let pool: usize = it.next()?.parse().ok()?;
+    let calls: usize = it.next()?.parse().ok()?;
+    let d: usize = it.next()?.parse().ok()?;
+    let parts: usize = it.next()?.parse().ok()?;
+    let maxiter: usize = it.next()?.parse().ok()?;
+    let n: usize = it.next()?.parse().ok()?;
+    let cshape: usize = it.next()?.parse().ok()?;
+    let wshape: usize = it.next()?.parse().ok()?;
+    let seed: u64 = it.next()?.parse().ok()?;
+    if it.next().is_some()
+        || pool == 0
+        || pool > 64
+        || calls == 0
+        || calls > 64
+        || !(d == 0 || d == 2 || d == 3)
+        || ![0usize, 3, 4, 5, 6].contains(&cshape)
+        || wshape > 3
+        || n + 13 * calls > 1 << 20
+    {
+        return None;
+    }
+    let inputs: Vec<CallInput> = (0..calls)
+        .map(|j| {
+            let dim = if d == 0 { 2 + j % 2 } else { d };
+            let nj = n + 13 * j;
+            let (_, coords, fcoords, ws) = gen_mjl_input(dim, nj, cshape, wshape, seed + j as u64);
+            let points = if dim == 2 { Pts::P2(points_of::<2>(&fcoords)) } else { Pts::P3(points_of::<3>(&fcoords)) };
+            let weights = ws.iter().map(|&w| w as f64).collect();
+            CallInput { dim, parts: parts + j % 3, maxiter, coords, ws, weights, points }
+        })
+        .collect();
+    ctx.count(&format!("context:pool_{}", pool));
+    ctx.count(&format!("context:calls_{}", if calls <= 8 { "<=8" } else if calls <= 16 { "9-16" } else { "17-32+" }));
+    if d == 0 {
+        ctx.count("context:mixed_dimensions");
+    }
+    let mut verdicts: Vec<(&'static str, String)> = vec![];
+    // (b) reference: sequential inside pool.install
+    let reference = catch(|| with_pool(pool, || inputs.iter().map(run_call).collect::<Vec<_>>()));
+    let out = match reference {
+        Caught::Ok(refs) => {
+            let canon_ref: Vec<Vec<usize>> = refs.iter().map(|r| canon(r)).collect();
+            let mut variants: Vec<(&str, Caught<Vec<Vec<usize>>>)> = vec![];
+            // (a) the global rayon pool (no install)
+            variants.push(("global_pool", catch(|| inputs.iter().map(run_call).collect::<Vec<_>>())));
+            // (c) from inside rayon tasks: join …
+            variants.push((
+                "inside_join",
+                catch(|| {
+                    with_pool(pool, || {
+                        let h = inputs.len() / 2;
+                        let (mut a, b) = coupe::rayon::join(
+                            || inputs[..h].iter().map(run_call).collect::<Vec<_>>(),
+                            || inputs[h..].iter().map(run_call).collect::<Vec<_>>(),
+                        );
+                        a.extend(b);
+                        a
+                    })
+                }),
+            ));
+            // … and scope/spawn, one task per call
+            variants.push((
+                "inside_scope_spawn",
+                catch(|| {
+                    with_pool(pool, || {
+                        let slots: Vec<std::sync::Mutex<Vec<usize>>> =
+                            inputs.iter().map(|_| std::sync::Mutex::new(vec![])).collect();
+                        coupe::rayon::scope(|s| {
+                            for (j, inp) in inputs.iter().enumerate() {
+                                let slot = &slots[j];
+                                s.spawn(move |_| {
+                                    *slot.lock().unwrap() = run_call(inp);
+                                });
+                            }
+                        });
+                        slots.into_iter().map(|m| m.into_inner().unwrap()).collect::<Vec<_>>()
+                    })
+                }),
+            ));
+            // (d) all calls at once
+            variants.push((
+                "concurrent_par_iter",
+                catch(|| with_pool(pool, || inputs.par_iter().map(run_call).collect::<Vec<_>>())),
+            ));
+            for (kind, res) in variants {
+                ctx.count(&format!("context:{}", kind));
+                match res {
+                    Caught::Ok(rs) => {
+                        for (j, r) in rs.iter().enumerate() {
+                            let inp = &inputs[j];
+                            if canon(r) != canon_ref[j] {
+                                verdicts.push((
+                                    "context-dependent@MultiJagged",
+                                    format!("call {} of {} ({}): another partition than the sequential call", j, calls, kind),
+                                ));
+                                break;
+                            }
+                            if kind == "concurrent_par_iter" {
+                                let positive = inp.ws.iter().all(|&w| w > 0);
+                                let inq = positive && (1..=inp.ws.len()).contains(&inp.parts) && (1..=4).contains(&inp.maxiter);
+                                oracle_mj(ctx, inp.dim, &inp.coords, &inp.ws, r, inp.parts, inp.maxiter, inq, &mut verdicts);
+                            }
+                        }
+                    }
+                    Caught::Panic(m) => verdicts.push(("panic", format!("{}: {} [{}]", kind, m, panic_sig(&m)))),
+                    Caught::Hang => verdicts.push(("hang", kind.to_string())),
+                }
+            }
+            let hashes: Vec<u128> = canon_ref.iter().map(|c| hash_ids(c)).collect();
+            tagged("ok ctx", &hashes)
+        }
+        Caught::Panic(m) => {
+            verdicts.push(("panic", format!("{} [{}]", m, panic_sig(&m))));
+            format!("panic {}", m)
+        }
+        Caught::Hang => {
+            verdicts.push(("hang", "watchdog".into()));
+            "hang".into()
+        }
+    };
+    let idx = ctx.record(op.to_string(), out, true);
+    for (sig, what) in verdicts {
+        ctx.fail(idx, sig, what);
+    }
+    Some(())
+}
+
+fn fmt_mjx(ctrans: usize, dim: usize, threads: usize, parts: usize, maxiter: usize, ws: &[u64], coords: &[i64], idx: &[usize]) -> String {
+    let base = fmt_mj(dim, threads, parts, maxiter, ws, coords);
+    format!("mjx {} {} {} {}", ctrans, &base[3..], idx.len(), join(idx)).trim_end().to_string()
+}
+
+/// SPECIAL-VALUES / CONTEXT stream.
+fn special_stream(ctx: &mut Ctx) {
+    // ---- signed zeros as coordinates: pairwise distinct coordinates around 0 on every axis
+    for _ in 0..ctx.budget(150, 1500) {
+        let n = 2 + ctx.rng.usize(40);
+        let dim = 2 + ctx.rng.usize(2);
+        let (mut coords, _) = gen_coords_distinct(ctx, n, dim);
+        for a in 0..dim {
+            // shift so that 0 has negative neighbours (and usually positive ones)
+            let shift = 1 + ctx.rng.usize(n - 1) as i64;
+            for i in 0..n {
+                coords[i * dim + a] -= shift;
+            }
+        }
+        let (ws, _) = gen_weights(ctx, n);
+        let zero_pts: Vec<usize> = (0..n).filter(|&p| (0..dim).any(|a| coords[p * dim + a] == 0)).collect();
+        let mut idx: Vec<usize> = vec![];
+        for &p in &zero_pts {
+            if ctx.rng.chance(2, 3) {
+                idx.push(p);
+            }
+        }
+        if idx.is_empty() {
+            idx.push(zero_pts[0]);
+        }
+        // a cut next to the zero: every point its own part, or a random part count
+        let parts = if ctx.rng.chance(1, 2) { n } else { 1 + ctx.rng.usize(n) };
+        let maxiter = 1 + ctx.rng.usize(4);
+        let threads = *ctx.rng.pick(&THREADS);
+        let ctrans = if ctx.rng.chance(1, 4) { 1 } else { 0 };
+        run_op(ctx, &fmt_mjx(ctrans, dim, threads, parts, maxiter, &ws, &coords, &idx));
+    }
+    // ---- signed zeros on a grid with ties (several zeros per axis, odd and even numbers of -0.0)
+    for _ in 0..ctx.budget(60, 600) {
+        let n = 2 + ctx.rng.usize(30);
+        let dim = 2 + ctx.rng.usize(2);
+        let coords: Vec<i64> = (0..n * dim).map(|_| ctx.rng.range(-2, 2)).collect();
+        let ws: Vec<u64> = if ctx.rng.chance(1, 2) { vec![1 + ctx.rng.usize(5) as u64; n] } else { gen_weights(ctx, n).0 };
+        let mut idx: Vec<usize> = vec![];
+        for p in 0..n {
+            if ctx.rng.chance(1, 2) {
+                idx.push(p);
+            }
+        }
+        let parts = 1 + ctx.rng.usize(n);
+        let maxiter = 1 + ctx.rng.usize(4);
+        let threads = *ctx.rng.pick(&THREADS);
+        run_op(ctx, &fmt_mjx(0, dim, threads, parts, maxiter, &ws, &coords, &idx));
+    }
+    // ---- -0.0 as a weight (a legal non-negative weight; outside C11's positive-weight quantifier)
+    for _ in 0..ctx.budget(100, 1000) {
+        let n = 2 + ctx.rng.usize(40);
+        let dim = 2 + ctx.rng.usize(2);
+        let (coords, _) = gen_coords_distinct(ctx, n, dim);
+        let (mut ws, _) = gen_weights(ctx, n);
+        let k = 1 + ctx.rng.usize(n.min(6));
+        let mut zeros: Vec<usize> = (0..n).collect();
+        ctx.rng.shuffle(&mut zeros);
+        zeros.truncate(k);
+        for &p in &zeros {
+            ws[p] = 0;
+        }
+        let idx: Vec<usize> = zeros.iter().copied().take(1 + ctx.rng.usize(k)).collect();
+        let parts = 1 + ctx.rng.usize(n);
+        let maxiter = 1 + ctx.rng.usize(4);
+        let threads = *ctx.rng.pick(&THREADS);
+        run_op(ctx, &fmt_mjx(0, dim, threads, parts, maxiter, &ws, &coords, &idx));
+    }
+    // ---- coordinates beyond the f32 range / equal as f32 (MultiJagged never converts to f32)
+    for _ in 0..ctx.budget(60, 600) {
+        let n = gen_n(ctx).min(200);
+        let dim = 2 + ctx.rng.usize(2);
+        let (mut coords, _) = gen_coords_distinct(ctx, n, dim);
+        for c in coords.iter_mut() {
+            *c -= (n / 2) as i64;
+        }
+        let (ws, _) = gen_weights(ctx, n);
+        let parts = 1 + ctx.rng.usize(n);
+        let maxiter = 1 + ctx.rng.usize(4);
+        let threads = *ctx.rng.pick(&THREADS);
+        let ctrans = 1 + ctx.rng.usize(2);
+        run_op(ctx, &fmt_mjx(ctrans, dim, threads, parts, maxiter, &ws, &coords, &[]));
+    }
+    // ---- extreme magnitudes of the weights (mjs codes 10..14)
+    for _ in 0..ctx.budget(200, 2000) {
+        let code = 10 + ctx.rng.usize(5);
+        let dim = 2 + ctx.rng.usize(2);
+        let threads = *ctx.rng.pick(&THREADS);
+        let maxiter = 1 + ctx.rng.usize(4);
+        let (n, ws): (usize, Vec<u64>) = if code == 10 {
+            // one weight about f64::MAX/2 (2^23 units of 2^1000), a few around 5e307 (2.3e6 units),
+            // the rest small; the total is finite but total * 1.01 is not
+            let target: u64 = (1 << 24) - 1 - ctx.rng.below(100_000);
+            let mut ws = vec![(1u64 << 23) - 1 - ctx.rng.below(1000)];
+            let mut sum = ws[0];
+            while target - sum > 2_600_000 {
+                let w = 2_200_000 + ctx.rng.below(300_000);
+                ws.push(w);
+                sum += w;
+            }
+            while target - sum > 0 {
+                let w = 1 + ctx.rng.below((target - sum).min(1 + (target - sum) / 2));
+                ws.push(w);
+                sum += w;
+                if ws.len() > 40 {
+                    ws.push(target - sum);
+                    sum = target;
+                }
+            }
+            ws.retain(|&w| w > 0);
+            ctx.rng.shuffle(&mut ws);
+            (ws.len(), ws)
+        } else {
+            let n = gen_n(ctx).min(100);
+            (n, gen_weights(ctx, n).0)
+        };
+        let (coords, _) = gen_coords(ctx, n, dim);
+        let parts = 1 + ctx.rng.usize(n);
+        ctx.count(&format!("special:weights_{}", SCALES[code].1));
+        let op = fmt_mj(dim, threads, parts, maxiter, &ws, &coords);
+        run_op(ctx, &format!("mjs {} {}", code, &op[3..]));
+    }
+    // ---- calling contexts
+    let ctxs: Vec<(usize, usize, usize, usize)> = if ctx.quick() {
+        // (pool, calls, D or 0 = mixed, n)
+        vec![(4, 8, 2, 300), (16, 32, 3, 200), (4, 32, 0, 1000), (16, 8, 0, 8193), (16, 16, 2, 2500), (4, 12, 3, 50)]
+    } else {
+        let mut v = vec![(4, 8, 2, 300), (16, 32, 3, 200), (4, 32, 0, 1000), (16, 8, 0, 8193), (16, 16, 2, 2500), (4, 12, 3, 50)];
+        for _ in 0..40 {
+            let pool = *ctx.rng.pick(&[4usize, 16]);
+            let calls = 8 + ctx.rng.usize(25);
+            let d = *ctx.rng.pick(&[0usize, 2, 3]);
+            let n = *ctx.rng.pick(&[2usize, 50, 300, 1000, 4097, 8193]);
+            v.push((pool, calls, d, n));
+        }
+        v
+    };
+    for (pool, calls, d, n) in ctxs {
+        let parts = *ctx.rng.pick(&[2usize, 5, 7, 64]);
+        let maxiter = 1 + ctx.rng.usize(4);
+        let cshape = *ctx.rng.pick(&[0usize, 3, 4, 5, 6]);
+        let wshape = ctx.rng.usize(4);
+        let seed = ctx.rng.below(1 << 32);
+        run_op(ctx, &format!("mjc {} {} {} {} {} {} {} {} {}", pool, calls, d, parts, maxiter, n, cshape, wshape, seed));
+    }
+    ctx.notes.push(
+        "special/context stream: -0.0 as coordinate (next to negative ones, with a cut beside it; distinct and tied) and as \
+         weight, odd and even counts, compared with the +0.0 run; coordinates times 1e36 and 600000+c/1000; weights in units \
+         of 2^1000 (total just below overflow), 2^-1022 (both exact: same partition as unscaled), 1e-310, 5e-324, 2^-1040 \
+         (subnormal: oracle); 8-32 calls on the global pool, inside join / scope-spawn tasks and concurrently via par_iter \
+         on pools of 4 and 16, mixed 2-D/3-D, each compared with the sequential call"
+            .into(),
+    );
+}
+
 pub fn generate(ctx: &mut Ctx) {
+    // process-level state: which dimension the first generated call of the run uses is random
+    {
+        let dim = 2 + ctx.rng.usize(2);
+        ctx.count(&format!("context:first_call_dim_{}", dim));
+        let n = 5 + ctx.rng.usize(20);
+        let (coords, _) = gen_coords_distinct(ctx, n, dim);
+        let (ws, _) = gen_weights(ctx, n);
+        let parts = 1 + ctx.rng.usize(n);
+        run_op(ctx, &fmt_mj(dim, 4, parts, 2, &ws, &coords));
+    }
     // ---- exhaustive small sub-space: fixed pairwise-distinct layout, all weight vectors over {1,2,5}
     let nmax = if ctx.quick() { 5 } else { 6 };
     let ys = [2i64, 0, 4, 1, 5, 3];
@@ -1638,6 +2130,7 @@ pub fn generate(ctx: &mut Ctx) {
         run_op(ctx, &format!("axissort {} {} {} {} {}", dim, coord, threads, n, join(&coords)).trim_end().to_string());
     }
     scale_stream(ctx);
+    special_stream(ctx);
     large_stream(ctx);
 }
 
